@@ -307,6 +307,86 @@ class Hotp(Bundle):
             raise Viol('%s: a wrong password is accepted at %d' % (self.name, pos))
         return pos
 
+
+# ------------------------------------------------------------------ belt-sde: one state, many sectors
+class Sde(Bundle):
+    """beltSDEStart once, then one StepE/StepD per sector (own IV, own length): every sector result must equal the
+    one-shot beltSDEEncr/Decr of that sector, whatever sectors were processed before and wherever the state moved"""
+    pre = 'beltSDE'
+    def __init__(self, decr, depth, key=KEY):
+        self.decr, self.depth, self.key = decr, depth, key
+        self.name = 'beltSDE.Step%s[%d]' % ('D' if decr else 'E', len(key))
+        self.sectors = [(32, IV), (48, bytes(16)), (64, b'\xff' * 16), (80, D(16, 2)), (96, IV)]
+    def start(self, L, A):
+        st = A.buf(self.keep(L), 0xA5)
+        L.call('beltSDEStart', st, A.buf(self.key), len(self.key))
+        return st
+    def trans(self, pos):
+        return [] if pos >= self.depth else [('sector', i) for i in range(len(self.sectors))]
+    def apply(self, L, A, st, pos, label, i):
+        n, iv = self.sectors[i]
+        x = D(n, (pos + i) % 4)
+        want = one(L, 'beltSDEDecr' if self.decr else 'beltSDEEncr', src=x, key=self.key, iv=iv)['dest']
+        b = A.buf(x)
+        L.call('beltSDEStepD' if self.decr else 'beltSDEStepE', b, n, A.buf(iv), st)
+        if b.get() != want:
+            raise Viol('%s: sector %d (count %d) processed as call %d differs from the one-shot function' % (self.name, i, n, pos + 1))
+        return pos + 1
+
+# ------------------------------------------------------------------ belt-keyrep: one state, many derived keys
+class Krp(Bundle):
+    pre = 'beltKRP'
+    def __init__(self, n, depth):
+        self.n, self.depth = n, depth
+        self.key = cat_belt.KEYS[n]
+        self.level = bytes(range(1, 13))
+        self.name = 'beltKRP[%d]' % n
+        self.menu = [(m, h) for m in (16, 24, 32) if m <= n for h in (bytes(16), bytes(range(16)))]
+    def start(self, L, A):
+        st = A.buf(self.keep(L), 0xA5)
+        L.call('beltKRPStart', st, A.buf(self.key), self.n, A.buf(self.level))
+        return st
+    def trans(self, pos):
+        return [] if pos >= self.depth else [('G', i) for i in range(len(self.menu))]
+    def apply(self, L, A, st, pos, label, i):
+        m, hdr = self.menu[i]
+        want = one(L, 'beltKRP', m=m, src=self.key, level=self.level, header=hdr)['dest']
+        o = A.buf(m, 0xEE)
+        L.call('beltKRPStepG', o, m, A.buf(hdr), st)
+        if o.get() != want:
+            raise Viol('%s: StepG(key_len %d) as call %d differs from the one-shot beltKRP' % (self.name, m, pos + 1))
+        return pos + 1
+
+# ------------------------------------------------------------------ botp TOTP: stateless in time, state relocatable
+class Totp(Bundle):
+    pre = 'botpTOTP'
+    def __init__(self, digit, depth):
+        self.digit, self.depth = digit, depth
+        self.name = 'botpTOTP[%d digits]' % digit
+        self.times = [0, 1, 59, 2 ** 32 - 1, 2 ** 32, 1700000000]
+    def start(self, L, A):
+        st = A.buf(self.keep(L), 0xA5)
+        L.call('botpTOTPStart', st, self.digit, A.buf(KEY), 32)
+        return st
+    def trans(self, pos):
+        return [] if pos >= self.depth else [(k, i) for i in range(len(self.times)) for k in ('R', 'Vok', 'Vbad')]
+    def apply(self, L, A, st, pos, label, i):
+        t = self.times[i]
+        otp = one(L, 'botp.TOTP', digit=self.digit, key=KEY, t=t)['otp']
+        if label == 'R':
+            o = A.buf(self.digit + 1, 0xEE); L.call('botpTOTPStepR', o, t, st)
+            got = o.get().split(b'\0')[0].decode()
+            if got != otp:
+                raise Viol('%s: StepR(t=%d) gives %s, one-shot botpTOTPRand gives %s' % (self.name, t, got, otp))
+        elif label == 'Vok':
+            if not L.boolean('botpTOTPStepV', A.buf(otp.encode() + b'\0'), t, st):
+                raise Viol('%s: the right password for t=%d is rejected' % (self.name, t))
+        else:
+            bad = '%0*d' % (self.digit, (int(otp) + 1) % 10 ** self.digit)
+            if L.boolean('botpTOTPStepV', A.buf(bad.encode() + b'\0'), t, st):
+                raise Viol('%s: a wrong password is accepted for t=%d' % (self.name, t))
+        return pos + 1
+
 # ------------------------------------------------------------------ bash automaton steps
 class PrgCmd(Bundle):
     """one command of the bash automaton fed in fragments: <Cmd>Start + <Cmd>Step(f)* must equal the whole command;
@@ -373,6 +453,7 @@ def bundles(tier):
         bs += [Aead(pre, 17 if q else 33, 18 if q else 34), Aead(pre, 9 if q else 17, 17 if q else 33, unwrap=True)]
     bs += [BrngCTR(70 if q else 97, bytes(32)), BrngCTR(70 if q else 97, b'\xff' * 32), BrngHMAC(70 if q else 97, 16), BrngHMAC(66, 64), BrngHMAC(66, 65), BrngHMAC(40, 0)]
     bs += [Hotp(6, b'\xff' * 7 + b'\xfe', 3), Hotp(8, bytes(8), 2 if q else 3)]
+    bs += [Sde(False, 2 if q else 3), Sde(True, 2 if q else 3), Krp(32, 2 if q else 3), Krp(24, 2), Krp(16, 2), Totp(6, 2), Totp(8, 1 if q else 2)]
     for cmd in ('Absorb', 'Squeeze', 'Encr', 'Decr'):
         for (l, d) in (((128, 1),) if q else ((128, 1), (192, 2), (256, 1))):
             rr = 192 - l * (2 + d) // 16
